@@ -154,8 +154,9 @@ package commonmark
 //@       && sameArray(p.buf, old(p.buf)) && offsetOf(p.buf) == offsetOf(old(p.buf)) + len(result.Source) && len(p.buf) == len(old(p.buf)) - len(result.Source)
 //@       && p.i == old(p.i) - len(result.Source))
 //@   ensures[fresh] !isnil(result) ==> fresh(result)
+//@   ensures[rootspan] !isnil(result) ==> result.Block.span.End == len(result.Source)
 //@   loop 0: invariant[p] !isnil(p) && framed()
-//@   serves C01, C08, C04
+//@   serves C01, C08, C02, C04
 
 // ---------------------------------------------------------------------------
 // NextBlock (C01, C08).  Ghost gOff / gLines accumulate the unpadded length and
